@@ -139,6 +139,11 @@ func (d *driver) runMsmCase(w emitter, k int, c *msmCase) {
 	}
 	e := ev{"ev": "msm", "k": k, "kind": c.Kind, "n": c.N, "tasks": c.Tasks, "mont": c.Mont, "small": c.Small, "pcls": c.Points, "scls": c.Scalars,
 		"pts": xy, "scalars": limbsList(vals), "numcpu": runtime.NumCPU()}
+	var decisions []ev
+	bandersnatch.VerifMsmDecision = func(n, nbTasks, cc, nbSplits, nbPoints, smallValues int, split bool) {
+		decisions = append(decisions, ev{"n": n, "tasks": nbTasks, "c": cc, "splits": nbSplits, "pts": nbPoints, "small": smallValues, "splitfirst": split})
+	}
+	defer func() { bandersnatch.VerifMsmDecision = nil }()
 	switch c.Kind {
 	case "api", "multiscalar", "mismatch":
 		scs := toFr(vals, c.Mont || c.Kind == "multiscalar")
@@ -167,6 +172,9 @@ func (d *driver) runMsmCase(w emitter, k int, c *msmCase) {
 			}
 		}, 180*time.Second)
 		e["finished"] = fin
+		if fin && len(decisions) == 1 {
+			e["decision"] = decisions[0]
+		}
 		if fin {
 			e["err"] = err != nil
 			if err == nil {
